@@ -342,15 +342,9 @@ def tie_check(prop):
                         failed.add("%s (%s:%d)" % (th.group(1) or "example", mm.group(1), i + 1))
                         break
             if untranslated:
-                # a function outside the MIR fragment is emitted as `unsupported`: the theorems that run it cannot
-                # check and say nothing.  Theorems about the enums' variants and values do not run any function.
-                fn_free = {f for f in failed if not re.match(r"(\w+_from|\w+_len|\w+_len_spec|\w+_code_points|\w+_inverts|len_never_stuck|example) ", f)}
-                enums_ok = all(v == "translated" for k, v in status.items() if k.startswith("enum:")) and "mir" not in status
-                if not (fn_free and enums_ok and all(u.startswith("fn:") for u in untranslated)):
-                    rec["status"] = "not translated (no alarm; the dynamic correspondence is the only tie for this fragment): " + "; ".join(untranslated)[:600]
-                    info["modules"][m] = rec
-                    continue
-                failed = fn_free
+                rec["status"] = "not translated (no alarm; the dynamic correspondence is the only tie for this fragment): " + "; ".join(untranslated)[:600]
+                info["modules"][m] = rec
+                continue
             rec["status"] = "BROKEN: " + ", ".join(sorted(failed))[:600]
             broken.append({"module": m, "theorems": t["theorems"], "failed": sorted(failed), "log": out[-3000:], "what": t["what"]})
         info["modules"][m] = rec
